@@ -7,7 +7,7 @@ CFG = {
     "lean": "Aqv.Props.C14",
     "exe": "aqmodel_c14",
     "harness": "c14",
-    "gen": ["params", "pow"],
+    "gen": ["params", "pow", "translated"],
     "overlay": ["consensus/aquahash/access.go"],
     "trivial_outputs": ["panic"],
     "min_cases": 5000,
